@@ -38,7 +38,6 @@ CFG = {
     "theorems": [
         "Swat4.C06.facts_config_wiring",
         "Swat4.C06.udp_total",
-        "Swat4.C06.udp_empty_panics",
         "Swat4.C06.udp_never_panics_checked",
         "Swat4.C06.udp_checked_panics_iff",
         "Swat4.HeartbeatChecked.dispatchChecked_eq",
@@ -52,7 +51,6 @@ CFG = {
         "Swat4.BrowserReqBridge.newRequest_eq",
         "Swat4.C06.rejected_no_effect",
         "Swat4.C06.unreached_no_effect",
-        "Swat4.C06.malformed_no_effect",
         "Swat4.C06.only_heartbeat_keepalive_mutate",
         "Swat4.C06.mutation_implies_decodable",
         "Swat4.C06.reaches_implies_decodable",
@@ -64,6 +62,12 @@ CFG = {
         "Swat4.C06.facts_browser_read_buffer",
         "Swat4.C06.facts_udp_read_buffer",
         "Swat4.C06.facts_partial_ops_browser",
+    ],
+    # proved in the Lean files and used by other proofs, but NOT audited as property theorems: each is a
+    # read-back of a definition, glue between two names, true by type, or a corollary of an audited theorem
+    "supporting": [
+        {"name": "Swat4.C06.malformed_no_effect", "why": "read-back of the definition (`WellFormedMutating` is defined as 'reached a use case and did not answer err'; repackages rejected_no_effect + unreached_no_effect, as its own doc comment says)"},
+        {"name": "Swat4.C06.udp_empty_panics", "why": "read-back of the definition (`rfl`: the unguarded model evaluated on the empty payload; a witness for the known finding, not a clause of the property)"},
     ],
     "shards": (4, 8),
     "nontrivial": _c06_nontrivial,
@@ -81,7 +85,7 @@ CFG = {
             "must be exactly the model's (Heartbeat.dispatch from 127.0.0.1:<client port>): at most one per datagram, none for a datagram the model "
             "leaves unanswered; non-trivial = non-empty payload",
     "assumptions": [
-        "udpserver only hands datagrams with n > 0 bytes to the dispatcher (pkg/udp/udpserver/server.go); udp_empty_panics shows the guard is needed",
+        "udpserver only hands datagrams with n > 0 bytes to the dispatcher (pkg/udp/udpserver/server.go); udp_empty_panics (supporting lemma, not audited: the model evaluated on the empty payload) shows the guard is needed",
         "healthy storage. TCP: BrowserReq06.handle (what the differential stream compares with the code) covers browsing.NewRequest only; "
         "tcp_pipeline_total covers the whole handler goroutine by composing the checked models of the other stages - query.NewFromString "
         "(C03.filter_parse_never_panics), packServers (packServersChecked_eq), crypt.Encrypt (C02.encrypt_total) - with the listing use case as "
@@ -102,7 +106,7 @@ CFG = {
         "their own goroutines; in-process the single response slice and for TCP the total bytes written are compared with the model)",
         "'well-formed' is ReporterSpec.decode? (independent strict decoder) up to three documented parser leniencies (ReporterSpec.Quirk: "
         "keepalive with trailing bytes, heartbeat whose last string lacks its NUL, unknown strings not in name/value pairs); "
-        "malformed_no_effect is definitional (WellFormedMutating is defined from the model: 'reaches a use case and is not answered err'); "
+        "malformed_no_effect is definitional and therefore not in the audited list (supporting; WellFormedMutating is defined from the model: 'reaches a use case and is not answered err'); "
         "rejected_no_effect (error => nothing written) and unreached_no_effect (control flow) are facts about the model, not well-formedness statements",
         "the REST port is parsed by net/http + gin (Recovery installed); no repo code below the handlers to model - see C17",
     ],
@@ -125,7 +129,7 @@ CFG = {
         "transcriptions to those)",
     ],
     "manifest": {
-        "text": "Lean theorems udp_total (Heartbeat.dispatch never panics on a non-empty datagram - by construction except for payload[0]) and udp_never_panics_checked / HeartbeatChecked.dispatchChecked_eq (the honest version: HeartbeatChecked.dispatchChecked transcribes Dispatcher.Handle, dispatch, ParseInstanceID, the parseHeartbeatParams loop with binutils.ConsumeCString, and the reply construction with PutUint16 and hex.Encode expression by expression with CHECKED index/slice/assignment operations and a fuelled loop; it is .panic exactly on the empty datagram and otherwise .ok of exactly the state and outcome of Heartbeat.dispatch), tcp_total/tcp_handle_total (the browser request parser never panics), tcp_pipeline_total (the whole handler goroutine - NewRequest, query.NewFromString, listing as an arbitrary function of the parsed query, packServers with its slice expressions checked, crypt.Encrypt - ends in one reply or a close without reply for every byte string read (any length, so in particular <= 2048), every requester, every listing and every cipher draws: never panic or hang; composed from C01.parse_total, C03.filter_parse_never_panics, packServersChecked_eq, C02.encrypt_total) with tcp_pipeline_refines_handle (it replies/closes exactly when BrowserReq06.handle says so, via BrowserReqBridge.newRequest_eq: the C06 request model is the outcome class of the C01 one), rejected_no_effect (an error outcome leaves registry, instances and queue unchanged), malformed_no_effect (definitional: state unchanged unless the model itself reaches and accepts a use case), mutation_implies_decodable (a datagram that changes the state is accepted by the independent decoder ReporterSpec.decode? as a heartbeat/removal/keepalive, or exhibits one of three documented leniencies of the real parsers - keepalive with trailing bytes, last string unterminated, unknown string without a value - each witnessed on the model and confirmed on the real dispatcher), acts_as_wellformed (every such datagram has exactly the effect and outcome of the encoding of a well-formed message); 'at most one reply' is not a theorem (the outcome types cannot express two replies): it is covered by the harness's reply count only; tied to the code by outcome + full-dump comparison on malformed streams and by real TCP connections to browser.Handler.Handle; liveness of the real udpserver is measured.",
+        "text": "Lean theorems udp_total (Heartbeat.dispatch never panics on a non-empty datagram - by construction except for payload[0]) and udp_never_panics_checked / HeartbeatChecked.dispatchChecked_eq (the honest version: HeartbeatChecked.dispatchChecked transcribes Dispatcher.Handle, dispatch, ParseInstanceID, the parseHeartbeatParams loop with binutils.ConsumeCString, and the reply construction with PutUint16 and hex.Encode expression by expression with CHECKED index/slice/assignment operations and a fuelled loop; it is .panic exactly on the empty datagram and otherwise .ok of exactly the state and outcome of Heartbeat.dispatch), tcp_total/tcp_handle_total (the browser request parser never panics), tcp_pipeline_total (the whole handler goroutine - NewRequest, query.NewFromString, listing as an arbitrary function of the parsed query, packServers with its slice expressions checked, crypt.Encrypt - ends in one reply or a close without reply for every byte string read (any length, so in particular <= 2048), every requester, every listing and every cipher draws: never panic or hang; composed from C01.parse_total, C03.filter_parse_never_panics, packServersChecked_eq, C02.encrypt_total) with tcp_pipeline_refines_handle (it replies/closes exactly when BrowserReq06.handle says so, via BrowserReqBridge.newRequest_eq: the C06 request model is the outcome class of the C01 one), rejected_no_effect (an error outcome leaves registry, instances and queue unchanged), mutation_implies_decodable (a datagram that changes the state is accepted by the independent decoder ReporterSpec.decode? as a heartbeat/removal/keepalive, or exhibits one of three documented leniencies of the real parsers - keepalive with trailing bytes, last string unterminated, unknown string without a value - each witnessed on the model and confirmed on the real dispatcher), acts_as_wellformed (every such datagram has exactly the effect and outcome of the encoding of a well-formed message); 'at most one reply' is not a theorem (the outcome types cannot express two replies): it is covered by the harness's reply count only; tied to the code by outcome + full-dump comparison on malformed streams and by real TCP connections to browser.Handler.Handle; liveness of the real udpserver is measured.",
         "level_note": "Trusted: Lean kernel; axioms propext, Quot.sound, Classical.choice; the inventory of partial Go operations the model makes explicit; the differential run as evidence that the models behave like the code; generated Facts.lean. Promptness/liveness are measurements.",
         "technique": "Lean 4 proof (totality by case analysis over explicit partial operations; checked transcriptions proved equal to the total models; composition of the per-stage totality theorems of C01/C02/C03; frame by 'error => no write' per use case) + differential correspondence + socket-level measurement",
         "design_ref": "DESIGN.md §5 C06",
